@@ -25,8 +25,8 @@ const char* W_CAT(slot_file, SLOT)() { return __FILE__; }
 #define W_THR .THROW(wthrow(eid))
 #define W_NONE
 // the object expression carries the slot number, so the expectation text (reports, OK reports,
-// trace records) identifies the slot as well: "wmock_s<3>(s.obj).f(dm_int(s.m[0]))"
-#define W_OBJ2(K) wmock_s<K>(s.obj)
+// trace records) identifies the slot as well: "wmock_s<3>(mk).f(dm_int(s.m[0]))"
+#define W_OBJ2(K) wmock_s<K>(mk)
 // clause order: even slots write IN_SEQUENCE before RT_TIMES, odd slots RT_TIMES before IN_SEQUENCE (both are documented)
 #if SLOT % 2
 #define W_MK(OBJ, CALL, SEQC, WITHC, TERM) \
@@ -44,7 +44,9 @@ const char* W_CAT(slot_file, SLOT)() { return __FILE__; }
   case FN * 6 + 4: W_MK(W_OBJ2(SLOT), CALL, W_SEQ2, WITHC, TERM0);  \
   case FN * 6 + 5: W_MK(W_OBJ2(SLOT), CALL, W_SEQ2, WITHC, W_THR);
 
-Created W_CAT(create_slot, SLOT)(const Spec& s) {
+namespace {
+template <class M>
+Created create_impl(M& mk, const Spec& s) {
   const int eid = s.eid;
   const std::size_t lo = static_cast<std::size_t>(s.lo);
   const std::size_t hi = s.hi == INF ? ~static_cast<std::size_t>(0) : static_cast<std::size_t>(s.hi);
@@ -60,6 +62,12 @@ Created W_CAT(create_slot, SLOT)(const Spec& s) {
     W_FORMS(F_g, g(dm_int(s.m[0]), dm_int(s.m[1])), W_WITHS2, W_RET)
   }
   return Created{nullptr, 0};
+}
+}  // namespace
+
+// both mock classes go through the same source lines
+Created W_CAT(create_slot, SLOT)(const Spec& s) {
+  return with_mock(s.obj, [&](auto& mk) { return create_impl(mk, s); });
 }
 
 }  // namespace w
